@@ -192,6 +192,17 @@ pub fn c06_part(report: &Report, max_len: usize) {
                 "max_message_length": max_len, "vectors": n, "failures": f, "wall_s": t.elapsed().as_secs_f64()}));
         }
     }
+    match run_py(&["layouts"]) {
+        Ok(None) => not_covered(report, "bindings not built or python3-vt missing"),
+        Err(e) => { eprintln!("MACHINERY: {e}"); std::process::exit(2); }
+        Ok(Some(v)) => {
+            let n = v["checked"].as_u64().unwrap_or(0);
+            report.add_traces(n);
+            let f = report_failures(report, &v, "");
+            report.section(json!({"part": "Python front end: per-symbol parameter arrays in every memory layout", "what": "every message over 3 small tables x {f32, f64} x {fast, perfect, lazy} x {C order, Fortran order, transposed view, strided view, reversed twice}: identical words (ANS and range coder) and round trip; 1-D means / standard deviations as strided and reversed views",
+                "comparisons": n, "failures": f}));
+        }
+    }
     let tests = repo_dir().join("tests").join("python");
     match run_py(&["docexamples", tests.to_str().unwrap()]) {
         Ok(None) => not_covered(report, "bindings not built or python3-vt missing"),
